@@ -1,43 +1,46 @@
 /-
-  C03 / C16 — range bounds of the form `K ++ [0]` ("just after K": the continue key of a paginated list, the
-  end of a single-key range), after /repo 146f0bb (`backend.encodeRangeBound`, model `KB.encodeBound`).
+  C03 / C16 — ARBITRARY range bounds: bounds of the form `K ++ [0]` ("just after K": the continue key of a
+  paginated list, the end of a single-key range; /repo 146f0bb) and, since /repo 23c8b93, every byte string
+  (`backend.encodeRangeBound` cuts a bound at its first byte at or below the key/revision separator; model
+  `KB.encodeBound`).
   Property theorems only. The order facts on internal keys are in KB.Props.C10 (`versions_before_succ_bound`,
-  `succ_bound_before_greater`, `range_bounds_exact'`, `old_bound_encoding_defect`); here they are lifted to
-  the range read: `Backend.List` / `Backend.Count` over `[a, b)` with `a`, `b` keys over the alphabet or
-  successors of such keys return exactly the snapshot restricted to the RAW keys `k` with `a ≤ k < b`
-  (`bytes.Compare` on raw keys — what the etcd reference's range does, `KB.Etcd.inInterval`).
+  `versions_before_low_bound`, `succ_bound_before_greater`, `range_bounds_exact'`, `bounds_ordered`,
+  `old_bound_encoding_defect`, `bound_146f0bb_defect`); here they are lifted to the range read: `Backend.List` /
+  `Backend.Count` over `[a, b)` with `a`, `b` ANY byte strings with `a < b` return exactly the snapshot
+  restricted to the RAW keys `k` with `a ≤ k < b` (`bytes.Compare` on raw keys — what the etcd reference's range
+  does, `KB.Etcd.inInterval`).
 -/
 import KB.Lemmas.EtcdRange
 namespace KB.C03Bounds
 open KB KB.Etcd Generated
 
-/-- `C03.list_spec` for bounds that are keys or successors of keys (one partition): the kvs are the scan of
+/-- `C03.list_spec` for ARBITRARY bounds (one partition): the kvs are the scan of
 exactly the records of the raw keys in `[a, b)`; with a limit the first `n`, `more` iff the limit cut. -/
 theorem list_spec_bounds (c : Cfg) (hsplit : c.splits = []) (s : BState) {recs : List Rec}
     (hstore : s.store = encodeStore recs) (hk : ∀ r ∈ recs, Alphabet r.key ∧ r.rev < 2 ^ 64)
-    (a b : Bytes) (ha : RangeBound a) (hb : RangeBound b) (hab : cmp a b = .lt) (R n : Nat) :
+    (a b : Bytes) (hab : cmp a b = .lt) (R n : Nat) :
     let full := scanRecs (C03.readRev R s.committed) (recs.filter (fun r => ble a r.key && blt r.key b))
     ∃ res, doList c s a b R n = .ok res ∧ res.hdr = hdrOf s.committed res.kvs ∧
       res.kvs = (if n = 0 then full else full.take n) ∧ (res.more = true ↔ (0 < n ∧ n < full.length)) :=
-  doList_bounds_spec c hsplit s hstore hk a b ha hb hab R n
+  doList_bounds_spec c hsplit s hstore hk a b hab R n
 
 /-- `C03.count_spec` for the same bounds. -/
 theorem count_spec_bounds (c : Cfg) (hsplit : c.splits = []) (hcompat : c.etcdCompat = true) (s : BState)
     {recs : List Rec} (hstore : s.store = encodeStore recs) (hk : ∀ r ∈ recs, Alphabet r.key ∧ r.rev < 2 ^ 64)
-    (a b : Bytes) (ha : RangeBound a) (hb : RangeBound b) (hab : cmp a b = .lt) :
+    (a b : Bytes) (hab : cmp a b = .lt) :
     doCount c s a b = .ok (s.committed,
       (scanRecs s.committed (recs.filter (fun r => ble a r.key && blt r.key b))).length) :=
-  doCount_bounds c hsplit hcompat s hstore hk ha hb hab
+  doCount_bounds c hsplit hcompat s hstore hk hab
 
 /-- The unlimited range read is the snapshot at the read revision restricted to the raw keys in `[a, b)`:
 the answer of the reference's range on raw keys. -/
 theorem list_is_snapshot_range (c : Cfg) (hsplit : c.splits = []) (s : BState) {recs : List Rec}
     (hstore : s.store = encodeStore recs) (hs : SortedRecs recs)
     (hk : ∀ r ∈ recs, Alphabet r.key ∧ r.rev < 2 ^ 64)
-    (a b : Bytes) (ha : RangeBound a) (hb : RangeBound b) (hab : cmp a b = .lt) (R : Nat) :
+    (a b : Bytes) (hab : cmp a b = .lt) (R : Nat) :
     ∃ res, doList c s a b R 0 = .ok res ∧
       res.kvs = (scanRecs (C03.readRev R s.committed) recs).filter (fun e => ble a e.1 && blt e.1 b) := by
-  refine ⟨_, doList_bounds_unlimited c hsplit s hstore hk ha hb hab R, ?_⟩
+  refine ⟨_, doList_bounds_unlimited c hsplit s hstore hk hab R, ?_⟩
   exact scan_filter_key hs _ (fun k => ble a k && blt k b)
 
 /-- START `K ++ [0]` EXCLUDES `K`: every key of a range read that starts just after `K` is strictly greater
@@ -45,9 +48,9 @@ than `K` (before the fix the read started with `K` again). -/
 theorem list_from_succ_excludes (c : Cfg) (hsplit : c.splits = []) (s : BState) {recs : List Rec}
     (hstore : s.store = encodeStore recs) (hs : SortedRecs recs)
     (hk : ∀ r ∈ recs, Alphabet r.key ∧ r.rev < 2 ^ 64)
-    (K b : Bytes) (hK : Alphabet K) (hb : RangeBound b) (hab : cmp (K ++ [0]) b = .lt) (R n : Nat) :
+    (K b : Bytes) (hab : cmp (K ++ [0]) b = .lt) (R n : Nat) :
     ∃ res, doList c s (K ++ [0]) b R n = .ok res ∧ ∀ kv ∈ res.kvs, blt K kv.1 = true ∧ kv.1 ≠ K := by
-  obtain ⟨res, hres, _, hkvs, _⟩ := list_spec_bounds c hsplit s hstore hk (K ++ [0]) b (.succ hK) hb hab R n
+  obtain ⟨res, hres, _, hkvs, _⟩ := list_spec_bounds c hsplit s hstore hk (K ++ [0]) b hab R n
   refine ⟨res, hres, ?_⟩
   intro kv hkv
   have hmem : kv ∈ scanRecs (C03.readRev R s.committed)
@@ -73,11 +76,11 @@ ends just after `K` (before the fix it was missing: `[K, K ++ [0])` was empty). 
 theorem list_to_succ_includes (c : Cfg) (hsplit : c.splits = []) (s : BState) {recs : List Rec}
     (hstore : s.store = encodeStore recs) (hs : SortedRecs recs)
     (hk : ∀ r ∈ recs, Alphabet r.key ∧ r.rev < 2 ^ 64)
-    (a K : Bytes) (ha : RangeBound a) (hK : Alphabet K) (haK : ble a K = true) (R : Nat) (v : Bytes) (m : Nat)
+    (a K : Bytes) (haK : ble a K = true) (R : Nat) (v : Bytes) (m : Nat)
     (hlive : readAt (C03.readRev R s.committed) recs K = some (v, m)) :
     ∃ res, doList c s a (K ++ [0]) R 0 = .ok res ∧ (K, v, m) ∈ res.kvs := by
   have hab : cmp a (K ++ [0]) = .lt := blt_iff.mp ((blt_succ_iff a K).mpr haK)
-  obtain ⟨res, hres, hkvs⟩ := list_is_snapshot_range c hsplit s hstore hs hk a (K ++ [0]) ha (.succ hK) hab R
+  obtain ⟨res, hres, hkvs⟩ := list_is_snapshot_range c hsplit s hstore hs hk a (K ++ [0]) hab R
   refine ⟨res, hres, ?_⟩
   rw [hkvs, List.mem_filter, mem_scanRecs_iff hs]
   refine ⟨hlive, ?_⟩
@@ -87,13 +90,13 @@ theorem list_to_succ_includes (c : Cfg) (hsplit : c.splits = []) (s : BState) {r
 /-- THE SINGLE-KEY RANGE `[K, K ++ [0])` is the point read of `K`. -/
 theorem single_key_range (c : Cfg) (hsplit : c.splits = []) (s : BState) {recs : List Rec}
     (hstore : s.store = encodeStore recs) (hs : SortedRecs recs)
-    (hk : ∀ r ∈ recs, Alphabet r.key ∧ r.rev < 2 ^ 64) (K : Bytes) (hK : Alphabet K) (R : Nat) :
+    (hk : ∀ r ∈ recs, Alphabet r.key ∧ r.rev < 2 ^ 64) (K : Bytes) (R : Nat) :
     ∃ res, doList c s K (K ++ [0]) R 0 = .ok res ∧
       res.kvs = match readAt (C03.readRev R s.committed) recs K with
         | none => []
         | some (v, m) => [(K, v, m)] := by
   have hab : cmp K (K ++ [0]) = .lt := blt_iff.mp ((blt_succ_iff K K).mpr (by simp [ble]))
-  obtain ⟨res, hres, hkvs⟩ := list_is_snapshot_range c hsplit s hstore hs hk K (K ++ [0]) (.key hK) (.succ hK) hab R
+  obtain ⟨res, hres, hkvs⟩ := list_is_snapshot_range c hsplit s hstore hs hk K (K ++ [0]) hab R
   refine ⟨res, hres, ?_⟩
   rw [hkvs]
   refine Eq.trans (List.filter_congr ?_) (scan_point hs (C03.readRev R s.committed) K)
@@ -113,6 +116,89 @@ theorem single_key_range (c : Cfg) (hsplit : c.splits = []) (s : BState) {recs :
   · intro he
     rw [he]
     simp [ble]
+
+/-! ### bounds with ANY byte at or below the split byte (/repo 23c8b93) -/
+
+/-- the keys a range read returns are keys of the store -/
+theorem kvs_keys_alphabet {recs : List Rec} (hs : SortedRecs recs) (hk : ∀ r ∈ recs, Alphabet r.key ∧ r.rev < 2 ^ 64)
+    (R : Nat) {kv : Bytes × Bytes × Nat} (h : kv ∈ scanRecs R recs) : Alphabet kv.1 := by
+  obtain ⟨k, v, m⟩ := kv
+  have h1 := (mem_scanRecs_iff hs R k v m).mp h
+  rw [readAt_def] at h1
+  cases hv : visible R recs k with
+  | none => rw [hv] at h1; simp [readOne] at h1
+  | some x =>
+    obtain ⟨hx, hvis⟩ := visible_some_mem hv
+    have := (vis_iff.mp hvis).1
+    simp only
+    rw [← this]
+    exact (hk x hx).1
+
+/-- START `P ++ c :: rest` (`c` at or below the split byte: `P ++ "\x01"`, `P ++ "#"`, `P ++ "\0\0"`, ...)
+EXCLUDES `P`: every key of a range read that starts there is strictly greater than `P` (with the 146f0bb
+version the read started with `P`: `C10.bound_146f0bb_defect`). -/
+theorem list_from_low_bound_excludes (c : Cfg) (hsplit : c.splits = []) (s : BState) {recs : List Rec}
+    (hstore : s.store = encodeStore recs) (hs : SortedRecs recs)
+    (hk : ∀ r ∈ recs, Alphabet r.key ∧ r.rev < 2 ^ 64)
+    (P rest b : Bytes) (x : Nat) (hx : x ≤ splitByte) (hab : cmp (P ++ x :: rest) b = .lt) (R n : Nat) :
+    ∃ res, doList c s (P ++ x :: rest) b R n = .ok res ∧ ∀ kv ∈ res.kvs, blt P kv.1 = true := by
+  obtain ⟨res, hres, _, hkvs, _⟩ := list_spec_bounds c hsplit s hstore hk (P ++ x :: rest) b hab R n
+  refine ⟨res, hres, ?_⟩
+  intro kv hkv
+  have hmem : kv ∈ scanRecs (C03.readRev R s.committed)
+      (recs.filter (fun r => ble (P ++ x :: rest) r.key && blt r.key b)) := by
+    rw [hkvs] at hkv
+    by_cases hn : n = 0
+    · simpa [hn] using hkv
+    · simp only [hn, if_false] at hkv
+      exact List.mem_of_mem_take hkv
+  rw [scan_filter_key hs _ (fun k => ble (P ++ x :: rest) k && blt k b), List.mem_filter] at hmem
+  have hal := kvs_keys_alphabet hs hk _ hmem.1
+  have h1 : ble (P ++ x :: rest) kv.1 = true := by
+    have := hmem.2
+    simp only [Bool.and_eq_true] at this
+    exact this.1
+  -- not (kv.1 < bound), i.e. not (kv.1 ≤ P)
+  rw [← not_blt_iff_ble] at h1
+  cases h2 : ble kv.1 P
+  · cases h3 : blt P kv.1
+    · rw [not_blt_iff_ble.mp h3] at h2; cases h2
+    · rfl
+  · rw [(C10.low_bound_is_after kv.1 P hal hx rest).mpr h2] at h1; cases h1
+
+/-- END `K ++ c :: rest` (`c` at or below the split byte) INCLUDES `K`: a key `K ≥ a` over the alphabet that is
+live at the read revision is in the range read that ends there (with the 146f0bb version it was missing:
+`[K, K ++ "\x01")` was empty). -/
+theorem list_to_low_bound_includes (c : Cfg) (hsplit : c.splits = []) (s : BState) {recs : List Rec}
+    (hstore : s.store = encodeStore recs) (hs : SortedRecs recs)
+    (hk : ∀ r ∈ recs, Alphabet r.key ∧ r.rev < 2 ^ 64)
+    (a K rest : Bytes) (x : Nat) (hx : x ≤ splitByte) (hK : Alphabet K) (haK : ble a K = true)
+    (R : Nat) (v : Bytes) (m : Nat) (hlive : readAt (C03.readRev R s.committed) recs K = some (v, m)) :
+    ∃ res, doList c s a (K ++ x :: rest) R 0 = .ok res ∧ (K, v, m) ∈ res.kvs := by
+  have hKb : blt K (K ++ x :: rest) = true := (C10.low_bound_is_after K K hK hx rest).mpr (by simp [ble])
+  have hab : cmp a (K ++ x :: rest) = .lt := blt_iff.mp (blt_of_ble_of_blt haK hKb)
+  obtain ⟨res, hres, hkvs⟩ := list_is_snapshot_range c hsplit s hstore hs hk a (K ++ x :: rest) hab R
+  refine ⟨res, hres, ?_⟩
+  rw [hkvs, List.mem_filter, mem_scanRecs_iff hs]
+  refine ⟨hlive, ?_⟩
+  simp [haK, hKb]
+
+/-- TWO BOUNDS CUT BEHIND THE SAME KEY (`P ++ "\x01"`, `P ++ "\x02"`: encoded alike, `C10.bounds_ordered_strong`)
+enclose nothing — and nothing is what lies between them: the range read is empty, as the reference's. -/
+theorem list_between_low_bounds_empty (c : Cfg) (hsplit : c.splits = []) (s : BState) {recs : List Rec}
+    (hstore : s.store = encodeStore recs) (hs : SortedRecs recs)
+    (hk : ∀ r ∈ recs, Alphabet r.key ∧ r.rev < 2 ^ 64)
+    (a b : Bytes) (hab : cmp a b = .lt) (henc : encodeBound a = encodeBound b) (R : Nat) :
+    ∃ res, doList c s a b R 0 = .ok res ∧ res.kvs = [] ∧
+      (scanRecs (C03.readRev R s.committed) recs).filter (fun e => ble a e.1 && blt e.1 b) = [] := by
+  obtain ⟨res, hres, hkvs⟩ := list_is_snapshot_range c hsplit s hstore hs hk a b hab R
+  have hempty : (scanRecs (C03.readRev R s.committed) recs).filter (fun e => ble a e.1 && blt e.1 b) = [] := by
+    rw [List.filter_eq_nil_iff]
+    intro e he
+    have hal := kvs_keys_alphabet hs hk _ he
+    have := C10.encodeBound_eq_no_key_between henc e.1 hal
+    simpa [Bool.and_eq_true] using this
+  exact ⟨res, hres, by rw [hkvs, hempty], hempty⟩
 
 /-! ### pagination: the page after `last` continues from `last ++ [0]` -/
 
@@ -143,12 +229,12 @@ missing. By induction, the concatenation of the pages is the unpaginated list. -
 theorem next_page (c : Cfg) (hsplit : c.splits = []) (s : BState) {recs : List Rec}
     (hstore : s.store = encodeStore recs) (hs : SortedRecs recs)
     (hk : ∀ r ∈ recs, Alphabet r.key ∧ r.rev < 2 ^ 64)
-    (a b : Bytes) (ha : RangeBound a) (hb : RangeBound b) (hab : cmp a b = .lt) (R n : Nat) :
+    (a b : Bytes) (hab : cmp a b = .lt) (R n : Nat) :
     ∃ page all, doList c s a b R n = .ok page ∧ doList c s a b R 0 = .ok all ∧
       (page.more = true → ∃ last rest, page.kvs.getLast? = some last ∧
         doList c s (last.1 ++ [0]) b R 0 = .ok rest ∧ all.kvs = page.kvs ++ rest.kvs) := by
-  obtain ⟨page, hpage, _, hpk, hpm⟩ := list_spec_bounds c hsplit s hstore hk a b ha hb hab R n
-  obtain ⟨all, hall, hak⟩ := list_is_snapshot_range c hsplit s hstore hs hk a b ha hb hab R
+  obtain ⟨page, hpage, _, hpk, hpm⟩ := list_spec_bounds c hsplit s hstore hk a b hab R n
+  obtain ⟨all, hall, hak⟩ := list_is_snapshot_range c hsplit s hstore hs hk a b hab R
   refine ⟨page, all, hpage, hall, ?_⟩
   intro hmore
   obtain ⟨hn, hlen⟩ := hpm.mp hmore
@@ -198,7 +284,7 @@ theorem next_page (c : Cfg) (hsplit : c.splits = []) (s : BState) {recs : List R
     have h2 : blt (all.kvs[n]).1 b = true := by
       have := (List.mem_filter.mp hnextin).2; simp only [Bool.and_eq_true] at this; exact this.2
     exact blt_iff.mp (blt_of_ble_of_blt h1 h2)
-  obtain ⟨rest, hrest, hrk⟩ := list_is_snapshot_range c hsplit s hstore hs hk (k ++ [0]) b (.succ hKa) hb hsb R
+  obtain ⟨rest, hrest, hrk⟩ := list_is_snapshot_range c hsplit s hstore hs hk (k ++ [0]) b hsb R
   rw [hR] at hrk
   refine ⟨(k, v, m), rest, hlast, hrest, ?_⟩
   -- all = take n ++ drop n, and drop n = what is greater than the last key of the page
@@ -226,8 +312,17 @@ theorem next_page (c : Cfg) (hsplit : c.splits = []) (s : BState) {recs : List R
 
 /-! Non-vacuity: a sorted store with prefix-related keys; the page after "/a" starts at "/a/b". -/
 example : SortedRecs C03.exRecs ∧ (∀ r ∈ C03.exRecs, Alphabet r.key ∧ r.rev < 2 ^ 64) ∧
-    RangeBound ([47, 97] ++ [0]) ∧ RangeBound [48] ∧ cmp ([47, 97] ++ [0]) [48] = .lt := by
-  refine ⟨by decide, by decide, .succ (by decide), .key (by decide), by decide⟩
+    cmp ([47, 97] ++ [0]) [48] = .lt := by
+  refine ⟨by decide, by decide, by decide⟩
+-- bounds with other low bytes: a proper interval, a cut bound, two bounds encoded alike
+example : cmp ([47, 97] ++ 1 :: []) [48] = .lt ∧ (1 : Nat) ≤ splitByte ∧ Alphabet [47, 97] ∧
+    ble [47] [47, 97] = true := by decide
+-- list_to_low_bound_includes / list_to_succ_includes: a key that is live at the read revision
+example : readAt 6 C03.exRecs [47, 97, 47, 98] = some ([2], 5) := by decide
+example : cmp ([47, 97] ++ [1]) ([47, 97] ++ [2]) = .lt ∧
+    encodeBound ([47, 97] ++ [1]) = encodeBound ([47, 97] ++ [2]) := by decide
+example : (scanRecs 6 C03.exRecs).filter (fun e => ble ([47, 97] ++ [1]) e.1 && blt e.1 [48]) =
+    [([47, 97, 47, 98], [2], 5)] := by decide
 example : (scanRecs 6 C03.exRecs).filter (fun e => ble ([47, 97] ++ [0]) e.1 && blt e.1 [48]) =
     [([47, 97, 47, 98], [2], 5)] := by decide
 
